@@ -391,6 +391,12 @@ pub fn run(a: &Args) -> i32 {
             let mut closed = false;
             while let Some(h) = &ha { let _ = h.send_notify("/poke", NotifyBody::Json(b"{}".to_vec())); if !h.is_connected() { closed = true; break; } if t0.elapsed() > Duration::from_secs(3) { break; } tokio::time::sleep(Duration::from_millis(5)).await; }
             let still_registered = reg2.get(repe::PeerId(pid_a)).is_some();
+            // a broadcast while A's writer is dead but A's disconnect callbacks have not run: A stays in the registry
+            // (with its aliases) until they do - a failed delivery is a result, not a removal
+            let d0 = ob2.disconnects.load(Ordering::SeqCst);
+            let res = reg2.broadcast_notify_raw("/bc", repe::BodyFormat::RawBinary, b"x");
+            let a_kept = reg2.get(repe::PeerId(pid_a)).is_some() && !reg2.aliases_for(repe::PeerId(pid_a)).is_empty() && res.contains_key(&repe::PeerId(pid_a));
+            let a_kept = a_kept || ob2.disconnects.load(Ordering::SeqCst) != d0 || d0 != 0 || !still_registered;
             let sb = tokio::net::TcpStream::connect(addr).await.unwrap();
             let (mut b, _) = tokio_tungstenite::client_async(format!("ws://{addr}/ws"), sb).await.unwrap();
             let mut fb = vec![];
@@ -401,7 +407,7 @@ pub fn run(a: &Args) -> i32 {
             let t1 = Instant::now();
             while ob2.disconnects.load(Ordering::SeqCst) < 1 && t1.elapsed() < Duration::from_secs(5) { tokio::time::sleep(Duration::from_millis(2)).await; }
             tokio::time::sleep(Duration::from_millis(20)).await;
-            let ok = reg2.get_by("session").map(|h| h.peer_id().0) == Some(pid_b) && reg2.get(repe::PeerId(pid_b)).is_some() && pid_a != pid_b;
+            let ok = a_kept && reg2.get_by("session").map(|h| h.peer_id().0) == Some(pid_b) && reg2.get(repe::PeerId(pid_b)).is_some() && pid_a != pid_b;
             let _ = b.close(None).await;
             drop(b);
             (ok, fb.first().map(|f| f.1 == "/hello").unwrap_or(false), closed && still_registered)
